@@ -4,6 +4,7 @@
          | (L src tgt D)                       a lookup made while the journal is read
    QUERY = (bal TGT D (NAME (n d c lot)...)...)        TGT = hex symbol, or - for -V
          | (balmemo TGT D (NAME (n d c lot)...)...)    through the memoising lookup
+         | (pct TGT D (NAME ((n d c lot)...) ((n d c lot)...))...)   --percent: held, parent's held
          | (reg TGT (day n d c lot)...)
          | (prices D c...)
    commodities are hex strings, lot = hex or -                                         *)
@@ -45,6 +46,14 @@ let handle line =
               | L (A name :: hs) ->
                 name ^ "=" ^ show_bal (bal_row (plain js) (List.map holding_of hs) (tgt_of t) (zatom d))
               | _ -> failwith "acct") accts)
+        | L (A "pct" :: t :: d :: rows) ->
+          String.concat " / " (List.map (function
+              | L [A name; L hs; L ps] ->
+                name ^ "=" ^ (match percent_row (plain js) (List.map holding_of hs) (List.map holding_of ps)
+                                      (tgt_of t) (zatom d) with
+                              | PErr -> "E"
+                              | PVal q -> show_q q)
+              | _ -> failwith "pct row") rows)
         | L (A "balmemo" :: t :: d :: accts) ->
           String.concat " / " (List.map (function
               | L (A name :: hs) ->
